@@ -95,13 +95,22 @@ func (t *StandardRoundTimer) background(ctx context.Context) {
 
 	var timerElapsed, cancelTimer chan struct{}
 
+	// The caller is allowed to cancel a timer and immediately request the next one.
+	// If that request is received before the cancellation was observed,
+	// it is parked here and served on the next iteration.
+	earlyReq := make(chan startTimerRequest, 1)
+
 	for {
 		// Wait for signal to start timer.
+		reqs := t.startTimerRequests
+		if len(earlyReq) > 0 {
+			reqs = earlyReq
+		}
 		select {
 		case <-ctx.Done():
 			return
 
-		case req := <-t.startTimerRequests:
+		case req := <-reqs:
 			// We assume the timer is always stopped by the time we receive a valid start timer request.
 			// If the timer is stopped, then we are safe to reset.
 			timer.Reset(req.Dur)
@@ -152,10 +161,31 @@ func (t *StandardRoundTimer) background(ctx context.Context) {
 			timerElapsed = nil
 			cancelTimer = nil
 
-		case <-t.startTimerRequests:
-			panic(errors.New(
-				"BUG: new timer requested before previous timer elapsed or was cancelled",
-			))
+		case req := <-t.startTimerRequests:
+			// The cancellation and the next request can both be ready in this select,
+			// so receiving the request first is only a bug if the timer was not cancelled.
+			select {
+			case <-cancelTimer:
+				// Okay, handle the cancellation now.
+			default:
+				panic(errors.New(
+					"BUG: new timer requested before previous timer elapsed or was cancelled",
+				))
+			}
+
+			if !timer.Stop() {
+				select {
+				case <-timer.C:
+					// Okay.
+				case <-ctx.Done():
+					return
+				}
+			}
+
+			// As in the cancel case, don't close the elapsed channel.
+			timerElapsed = nil
+			cancelTimer = nil
+			earlyReq <- req
 		}
 	}
 }
